@@ -37,12 +37,23 @@ func e11Render(t string, m map[string]interface{}) (string, error) {
 	return t, nil
 }
 
+var e11Consumer bool
+var e11ConsumerSaw, e11ConsumerSawDefault string
+var e11ExportName string
+
 func e11InterpRun(r *interp.Runner, ctx context.Context, node syntax.Node) error {
+	if e11Consumer {
+		// a later task: what it finds under the producer's exported name
+		e11ConsumerSaw = r.Env.Get(e11ExportName).Str
+		e11ConsumerSawDefault = r.Env.Get("PROD_OUTPUT").Str
+		return nil
+	}
 	k := len(e11Printed)
 	n := rt.Concrete(rt.Choice("outlen."+e11D[k], 3))
 	out := make([]byte, n)
 	for i := range out {
 		out[i] = rt.Uint8("out." + e11D[k] + "." + e11D[i])
+		rt.Assume(out[i] != 0) // an environment variable cannot carry a NUL byte
 	}
 	if n > 0 {
 		e11Out.Write(out)
@@ -50,7 +61,9 @@ func e11InterpRun(r *interp.Runner, ctx context.Context, node syntax.Node) error
 	// something on stderr as well: it must not end up in the captured output
 	toErr := rt.Bool("prints-to-stderr." + e11D[k])
 	if toErr {
-		e11Err.Write([]byte{rt.Uint8("err." + e11D[k])})
+		eb := rt.Uint8("err." + e11D[k])
+		rt.Assume(eb != 0)
+		e11Err.Write([]byte{eb})
 	}
 	e11PrintedErr = append(e11PrintedErr, toErr)
 	e11Printed = append(e11Printed, string(out))
@@ -67,7 +80,13 @@ func VerifC11Exec(nc int) {
 	rt.Redirect("(*mvdan.cc/sh/v3/interp.Runner).Run", e11InterpRun)
 	rt.Redirect("github.com/taskctl/taskctl/pkg/utils.RenderString", e11Render)
 	e11Printed, e11SeenOutput, e11PrintedErr = nil, nil, nil
+	e11Consumer, e11ConsumerSaw, e11ConsumerSawDefault = false, "", ""
 	def := &taskDefinition{Name: "prod", Command: []string{"c0", "c1", "c2"}[:nc]}
+	e11ExportName = "PROD_OUTPUT"
+	if rt.Bool("exportAs-given") {
+		def.ExportAs = "CHOSEN"
+		e11ExportName = "CHOSEN"
+	}
 	t, err := buildTask(def, &loaderContext{Dir: "/proj"})
 	rt.Assert(err == nil, "C11.task-built")
 	r, _ := runner.NewTaskRunner()
@@ -94,5 +113,14 @@ func VerifC11Exec(nc int) {
 	}
 	rt.Assert(len(e11SeenOutput) == nc, "C11.exec.every-command-rendered")
 	rt.Assert(t.Output() == all, "C11.exec.captured-output-is-exactly-the-stdout-bytes-in-order")
+	// a task that runs later on the same runner finds exactly those bytes under the exported name
+	cons, err := buildTask(&taskDefinition{Name: "cons", Command: []string{"k0"}}, &loaderContext{Dir: "/proj"})
+	rt.Assert(err == nil, "C11.task-built")
+	e11Consumer = true
+	rt.Assert(r.Run(cons) == nil, "C11.exec.consumer-ran")
+	rt.Assert(e11ConsumerSaw == all, "C11.exec.exported-variable-is-exactly-the-stdout-bytes-in-order")
+	if e11ExportName != "PROD_OUTPUT" {
+		rt.Assert(e11ConsumerSawDefault == "", "C11.exec.exportAs-replaces-the-default-name")
+	}
 	rt.Cover("C11.exec-checked")
 }
